@@ -733,7 +733,7 @@ fn run_inner(a: &Args, shard: u64, shards: u64) -> Report {
     } else if a.thorough {
         1 << 30
     } else {
-        1 << 22
+        1 << 24
     };
     let block = 1u64 << 12;
     let mut b = 0u64;
@@ -871,7 +871,7 @@ fn run_inner(a: &Args, shard: u64, shards: u64) -> Report {
             check_settings(&mut rep, &mut r);
         }
     }
-    let n_headers: u64 = if a.miri { 12 } else if a.thorough { 400_000 } else { 12_000 };
+    let n_headers: u64 = if a.miri { 12 } else if a.thorough { 400_000 } else { 60_000 };
     for j in 0..n_headers {
         if mine(j) {
             let mut r = Rng::derive(a.seed, 0xC14_4EAD + (j << 20));
